@@ -115,7 +115,13 @@ namespace opensmt {
   class ConfValue {
     public:
       ConfType type;
-      union { char* strval; int numval; double decval; uint32_t unumval; std::list<ConfValue*>* configs; };
+      // Only the member selected by `type` is meaningful. The members do not share storage: an accessor that reads
+      // the wrong one (e.g. the number of a value given as a symbol) gets the default, never the bits of a pointer.
+      char* strval = nullptr;
+      int numval = 0;
+      double decval = 0;
+      uint32_t unumval = 0;
+      std::list<ConfValue*>* configs = nullptr;
       ConfValue() : type(O_EMPTY), strval(NULL) {};
       ConfValue(const ASTNode& s_expr_n);
       ConfValue(int i) : type(O_NUM), numval(i) {};
